@@ -10,7 +10,9 @@ import DymVerif.Gen.Guards
                                         | rej grant <alias> | rej unpack
        T ::= <alias> <authAlias|-> <bad:0|1> <k> T1 … Tk
   own <obj> <actor>                  -> ok          (fixture: object `obj` is owned by actor)
-  priv <module.Msg> <obj> <signer> <valid:0|1> <newOwner|->
+  fix <what> [a<i>]                  -> ok          (fixture maintenance; `fix buy a<i>`: new buy order of actor i = object 5)
+  ext <typeURL> <signer>             -> rej         (any message with an Authority field from a non-authority signer)
+  priv <module.Msg> <obj> <signer> <valid:0|1> <obj:a<i>,…|->
                                      -> ok | rej    signer ::= gov | a<i> | m<i>
 -/
 namespace DymVerif.Driver.C20
@@ -64,20 +66,31 @@ def signer! (x : String) : Signer :=
   else if x.startsWith "a" then .actor (nat! (x.drop 1).toString)
   else .module (nat! (x.drop 1).toString)
 
+/-- `-` or `obj:a<i>,obj:a<i>…` -/
+def pairs! (x : String) : List (Nat × Nat) :=
+  if x = "-" then [] else
+  (x.splitOn ",").filterMap (fun p =>
+    match p.splitOn ":" with
+    | [o, a] => some (nat! o, nat! (a.drop 1).toString)
+    | _ => none)
+
 def step (s : St) (f : List String) : St × String :=
   match f with
-  | ["reset"] => ({}, "ok")
+  | "reset" :: _ => ({}, "ok")
   | ["ty", a, g] => ({ s with aliases := (a, tyId g) :: s.aliases }, "ok")
   | "tx" :: k :: rest =>
     match parseMsgs s (nat! k) rest with
     | some (ms, []) => (s, showErr s (anteCheck Gen.Ante.config ms))
     | _ => (s, "bad-op")
   | ["own", o, a] => ({ s with owners := setOwner s.owners (nat! o) (nat! (a.drop 1).toString) }, "ok")
+  | ["fix", "buy", a] => ({ s with owners := setOwner s.owners 5 (nat! (a.drop 1).toString) }, "ok")
+  | ["fix", _] => (s, "ok")
+  | ["ext", _, sg] => (s, if signer! sg = .authority then "na" else "rej")
   | ["priv", m, o, sg, v, n] =>
     match Gen.Guards.table.find? (fun e => e.1 = m) with
     | some e =>
       let a : Attempt := { entry := e.2, obj := nat! o, signer := signer! sg, valid := v = "1",
-                           newOwner := if n = "-" then none else some (nat! (n.drop 1).toString) }
+                           newOwners := pairs! n }
       let r := gstep s.owners a
       ({ s with owners := r.1 }, if r.2 then "ok" else "rej")
     | none => (s, "no-entry")
